@@ -841,6 +841,11 @@ def main():
     except Inconclusive as e:
         print("INCONCLUSIVE property=%s: %s" % (a.prop, e))
         rc = 2
+    except Exception:
+        # a failure of the machinery itself is never a verdict
+        import traceback
+        print("INCONCLUSIVE property=%s: internal error of the check\n%s" % (a.prop, traceback.format_exc()[-3000:]))
+        rc = 2
     sys.exit(rc)
 
 
